@@ -30,6 +30,21 @@ def gen(tier, rng):
         for _ in range(5000):
             strings.append("".join(rng.choice(pool) for _ in range(rng.randint(0, 16))))
             strings.append(rng.choice(["https://", "http://", "x:"]) + "".join(rng.choice(pool) for _ in range(rng.randint(0, 12))))
+    # literals that are new in the source (gen/srclit.py): each new word as scheme, host, path, query, fragment, userinfo and as
+    # the whole string; each new integer (and its neighbours) as the length of the string and as the port
+    from gen import srclit as S
+    lit = []
+    for w in S.words():
+        tok = "".join(c for c in w if c.isalnum() or c in "+-._")
+        lit += [w, " " + w, w + " ", w + "://example.com/", "https://example.com/" + w, "https://example.com/?" + w, "https://example.com/?k=" + w, "https://example.com/#" + w,
+                "https://" + w + "@example.com/", "https://u:" + w + "@example.com/", "https://example.com/" + w + "/../x", w + ":opaque", "https://example.com/x?" + w + "=1&" + w + "=2"]
+        if tok:
+            lit += [tok + "://example.com/x", tok.upper() + "://EXAMPLE.com/x", "https://" + tok + ".example.com/", "https://" + tok + "/", "HTTPS://" + tok.upper() + "/x", tok + ":x", "x-" + tok + ":y"]
+    for n in S.sizes(limit=300000, lo=0):
+        if n >= 21:
+            lit += ["https://example.com/" + "p" * (n - 20), "https://example.com/?" + "q" * (n - 21), "HTTPS://EXAMPLE.com/" + "P" * (n - 20), "https://example.com/" + "\u00e9" * ((n - 20) // 2)]
+        lit += ["x:" + "o" * n, "https://example.com:%d/" % n, "https://example.com/%d" % n]
+    strings += [x for x in dict.fromkeys(lit) if x not in strings]
     info = R.urlinfo(strings)
     for ti, ty in enumerate(TYPES):
         for i, s in enumerate(strings):
@@ -38,6 +53,13 @@ def gen(tier, rng):
             o = info[s]
             out.append(("URLT %s %s %s" % (ty, C.tb(s), "-" if o is None else o[0]), "valid" if o else "invalid"))
     valid = [s for s in strings if info[s] is not None and len(s) < 400][:60]
+    litvalid = [x for x in dict.fromkeys(lit) if info.get(x) is not None and x not in valid]
+    for ti, ty in enumerate(TYPES):
+        for a in litvalid:
+            others = [b for b in litvalid if b != a and (info[b][0] == info[a][0] or len(b) == len(a) or b.lower() == a.lower())][:6] + [valid[0], a]
+            for b in others:
+                out.append(("URLP %s %s %s" % (ty, C.tb(a), C.tb(b)), "source-literal/pair"))
+                out.append(("URLP %s %s %s" % (ty, C.tb(b), C.tb(a)), "source-literal/pair"))
     # long values that differ only near the end (a hash or comparison over a prefix would not see the difference)
     longs = ["https://example.com/" + "x" * n + t for n in (240, 300, 1100, 5000) for t in ("a", "b")]
     for ti, ty in enumerate(TYPES):
